@@ -21,6 +21,9 @@ func isLoggingCall(e ast.Expr) bool {
 	if !ok {
 		return false
 	}
+	if id, ok := call.Fun.(*ast.Ident); ok && id.Name == "verifPoint" {
+		return true
+	}
 	sel, ok := call.Fun.(*ast.SelectorExpr)
 	if !ok {
 		return false
@@ -51,6 +54,9 @@ func normaliseBlock(b *ast.BlockStmt) {
 	var keep []ast.Stmt
 	for _, s := range b.List {
 		if es, ok := s.(*ast.ExprStmt); ok && isLoggingCall(es.X) {
+			continue
+		}
+		if ds, ok := s.(*ast.DeferStmt); ok && isLoggingCall(ds.Call) {
 			continue
 		}
 		// `if logger.IsDebug() { ... }` blocks only log
